@@ -7,6 +7,7 @@ package interp
 import (
 	"fmt"
 	"go/types"
+	"strconv"
 	"strings"
 )
 
@@ -313,8 +314,14 @@ func (e *Engine) protoMethod(name string) externalFn {
 	switch {
 	case strings.HasSuffix(name, ").String"):
 		return func(fr *frame, a []value) value {
-			fr.i.ex.res.Stubs["proto:opaque-String"]++
-			return "<" + name[2:strings.LastIndex(name, ")")] + ">"
+			// injective structural rendering (not prototext's exact text)
+			fr.i.ex.res.Stubs["proto:structural-String"]++
+			p, _ := a[0].(*value)
+			if p == nil {
+				return "<nil>"
+			}
+			rt := fr.fn.Signature.Recv().Type()
+			return valueOfTerm(fr.i.ex.renderProto(*p, mustDeref(rt)), types.String)
 		}
 	case strings.HasSuffix(name, ").Reset"):
 		return func(fr *frame, a []value) value {
@@ -349,4 +356,129 @@ func (e *Engine) protoEnumMethod(name string) externalFn {
 		}
 	}
 	return nil
+}
+
+// renderProto renders a message value as text such that different messages
+// give different texts (field names, zero fields omitted, map entries sorted
+// by key). Symbolic strings are assumed free of the quote and backslash
+// characters (recorded as a restriction).
+func (ex *exec) renderProto(v value, t types.Type) *Term {
+	switch x := v.(type) {
+	case structure:
+		st, ok := t.Underlying().(*types.Struct)
+		if !ok {
+			return mkStr("<struct>")
+		}
+		parts := []*Term{mkStr("{")}
+		for i := 0; i < st.NumFields() && i < len(x); i++ {
+			f := st.Field(i)
+			if !f.Exported() {
+				continue
+			}
+			if deepZero(x[i]) {
+				continue
+			}
+			parts = append(parts, mkStr(f.Name()+":"), ex.renderProto(x[i], f.Type()), mkStr(" "))
+		}
+		parts = append(parts, mkStr("}"))
+		return tConcat(parts...)
+	case *value:
+		if x == nil {
+			return mkStr("nil")
+		}
+		if pt, ok := t.Underlying().(*types.Pointer); ok {
+			return ex.renderProto(*x, pt.Elem())
+		}
+		return mkStr("<ptr>")
+	case iface:
+		if x.t == nil {
+			return mkStr("nil")
+		}
+		name := x.t.String()
+		if i := strings.LastIndexByte(name, '.'); i >= 0 {
+			name = name[i+1:]
+		}
+		return tConcat(mkStr(name), ex.renderProto(x.v, x.t))
+	case []value:
+		parts := []*Term{mkStr("[")}
+		var et types.Type
+		if sl, ok := t.Underlying().(*types.Slice); ok {
+			et = sl.Elem()
+		}
+		for i, e := range x {
+			if i > 0 {
+				parts = append(parts, mkStr(","))
+			}
+			if pb, ok := e.(*protoBox); ok {
+				parts = append(parts, mkStr("box"), ex.renderProto(pb.msg, mustDeref(pb.t)))
+				continue
+			}
+			if et != nil {
+				parts = append(parts, ex.renderProto(e, et))
+			} else {
+				parts = append(parts, mkStr("?"))
+			}
+		}
+		parts = append(parts, mkStr("]"))
+		return tConcat(parts...)
+	case *omap:
+		if x == nil {
+			return mkStr("map[]")
+		}
+		mt, _ := t.Underlying().(*types.Map)
+		type kv struct {
+			k string
+			e *mentry
+		}
+		var kvs []kv
+		for _, e := range x.entries {
+			if e == nil {
+				continue
+			}
+			ks, ok := e.key.(string)
+			if !ok {
+				if isSym(e.key) {
+					ex.unsupported("protobuf String() of a map with symbolic keys")
+				}
+				ks = fmt.Sprint(e.key)
+			}
+			kvs = append(kvs, kv{ks, e})
+		}
+		for i := 1; i < len(kvs); i++ {
+			for j := i; j > 0 && kvs[j].k < kvs[j-1].k; j-- {
+				kvs[j], kvs[j-1] = kvs[j-1], kvs[j]
+			}
+		}
+		parts := []*Term{mkStr("map[")}
+		for _, p := range kvs {
+			parts = append(parts, mkStr(strconv.Quote(p.k)+":"))
+			if mt != nil {
+				parts = append(parts, ex.renderProto(p.e.val, mt.Elem()))
+			}
+			parts = append(parts, mkStr(" "))
+		}
+		parts = append(parts, mkStr("]"))
+		return tConcat(parts...)
+	case string:
+		return mkStr(strconv.Quote(x))
+	case sym:
+		switch {
+		case x.k == types.String:
+			ex.assumeOrAbort(tAnd(tNot(tStrOp("str.contains", SBool, x.t, mkStr("\""))), tNot(tStrOp("str.contains", SBool, x.t, mkStr("\\")))), "symbolic string in protobuf String() contains no quote/backslash")
+			return tConcat(mkStr("\""), x.t, mkStr("\""))
+		case x.k == types.Bool:
+			return tIte(x.t, mkStr("true"), mkStr("false"))
+		case isIntKind(x.k):
+			return tIte(tCmp("<", x.t, mkInt64(0)), tConcat(mkStr("-"), mkApp("str.from_int", SStr, tNeg(x.t))), mkApp("str.from_int", SStr, x.t))
+		}
+		return mkStr("<sym>")
+	case bool:
+		return mkStr(fmt.Sprint(x))
+	case nil:
+		return mkStr("nil")
+	}
+	if n := bigOf(v); n != nil {
+		return mkStr(n.String())
+	}
+	return mkStr(fmt.Sprint(v))
 }
